@@ -1,4 +1,4 @@
-import SplinkVerif.Lemmas.OneToOne
+import SplinkVerif.Lemmas.OneToOneConn
 /-!
 # C12 — single-best-link clusters respect duplicate-free datasets
 
@@ -13,9 +13,8 @@ Status of the parts of the property:
 * partition, constraint, termination — proved for all inputs and all oracles;
 * maximality — proved for tie-free inputs (all oracles, which are then irrelevant);
 * connectivity — **false with ties** (`connected_counter_ties`, a defect of the real code,
-  finding K4); for tie-free inputs it is a conjecture (`connected_tie_free`, stated in a
-  comment below, listed under `open_statements`); proved here: the parent-forest invariant
-  I-P implies it (`connected_partial`).
+  finding K4); **proved for tie-free inputs** (`connected_tie_free`): the returned partition
+  is the constrained Kruskal partition (`partition_is_kruskal_when_tie_free`).
 -/
 namespace SplinkVerif.C12
 open SplinkVerif SplinkVerif.OneToOne
@@ -105,18 +104,28 @@ theorem connected_counter_ties :
 
 /-! ### Connectivity without ties
 
-OPEN (conjecture, no counterexample in 2.4e9 random tie-free instances, see DESIGN §6 C12):
+Proved (`Lemmas/OneToOneConn.lean`): the partition returned for a tie-free input is the
+partition into the clusters of the **constrained Kruskal forest** `KS I` (kept edges by
+decreasing probability; an edge is accepted iff it joins two different trees that hold no two
+records of one duplicate-free dataset).  Invariant of the loop: every representative group
+lies inside one Kruskal cluster; at the exit state (no candidate row) the groups are the
+Kruskal clusters, which are connected by construction. -/
 
-    theorem connected_tie_free (I : Inst) (oL oR : Oracle) (htf : TieFree I) :
-        Connected I (run I oL oR).rep
+/-- With pairwise distinct probabilities every returned cluster is connected through kept
+edges that stay inside the cluster — for every pair of tie-break oracles. -/
+theorem connected_tie_free (I : Inst) (oL oR : Oracle) (htf : TieFree I) :
+    Connected I (run I oL oR).rep :=
+  Lemmas.O2O.connected_tie_free I oL oR htf
 
-What is proved: if a parent forest — `par v` = the neighbour from which `v` adopted its
-current representative (`par v = v` for records that never changed), with adoption time
-stamps `τ` — satisfies the invariant **I-P** of DESIGN (a record whose parent carries a
-different label is still joined to it by a candidate row, i.e. their groups do not conflict),
-then at a table with no candidate row (the exit state of every tie-free run, by
-`no_candidate_when_tie_free`) every cluster is connected through kept edges.  Missing: that
-the run maintains I-P (observed in ~1e9 random runs, not proved). -/
+/-- The returned partition of a tie-free input is the constrained Kruskal partition: two
+records share a cluster iff they are joined by a path of accepted Kruskal edges. -/
+theorem partition_is_kruskal_when_tie_free (I : Inst) (oL oR : Oracle) (htf : TieFree I)
+    (u v : Nat) (hu : u < I.n) (hv : v < I.n) :
+    repOf (run I oL oR).rep u = repOf (run I oL oR).rep v ↔
+      Reach (Lemmas.O2O.adjOf (Lemmas.O2O.KS I)) u v :=
+  Lemmas.O2O.run_eq_kruskal I oL oR htf u v hu hv
+
+/-! The older route through the parent forest (kept for reference; no longer needed). -/
 
 /-- I-P ⇒ connectivity at a fixpoint without candidate rows. -/
 theorem connected_partial (I : Inst) (rep : Reps) (par τ : Nat → Nat)
